@@ -263,6 +263,18 @@ def gen_cases(thorough):
             if rng.chance(1, 2): parts[rng.below(len(parts))] = b
             cs.append("joins %s %d %s" % (hx(b), len(parts), " ".join(hx(x) for x in parts)))
         else: cs.append("lev %s %s" % (hx(a0.swapcase()), hx(b0)))
+    # --- huge sizes: one sparse zero mapping, written head / tail bytes; only helpers that touch the ends (see harness)
+    HS = [2 ** 31 - 1, 2 ** 31, 2 ** 31 + 1, 2 ** 32 - 1, 2 ** 32, 2 ** 32 + 1]
+    HV = [(b"Hello", b".TXT", b".txt", b" ", 5), (b"  ab", b"cd \t", b"", b" \t\r\n", 3), (b"aB", b"xyz", b"yz", b"z", 0),
+          (b"\xff\x80", b"\x80\xff", b"\xff", b"\xff", 9), (b"abc", b"abc", b"abcd", b"cba", 2)]
+    for n in HS:
+        for (h, t, m, d, pl) in (HV if thorough else HV[:3] + [HV[rng.below(len(HV))]]):
+            cs.append("huge %d %s %s %s %s %d" % (n, hx(h), hx(t), hx(m), hx(d), pl))
+        # the match is the tail itself / the head itself / one byte more than fits
+        t = rbytes(1 + rng.below(5), [b"a", b"B", b".", b"\x00", b"\xe1"]); h = b"Q" + rbytes(rng.below(4), [b"a", b"B", b" "])
+        cs.append("huge %d %s %s %s %s %d" % (n, hx(h), hx(t), hx(t), hx(b"Q"), 1 + rng.below(6)))
+        cs.append("huge %d %s %s %s %s %d" % (n, hx(h), hx(t), hx(h), hx(t.replace(b"\x00", b"x")), 0))
+        cs.append("huge %d %s %s %s %s %d" % (n, hx(h), hx(t), hx((h + b"\x00")[:6]), hx(h[:1]), 2))
     # --- regimes added by the hypothesis audit (docs/audit/C19.md): arguments the earlier generator never produced
     BIG = 4611686018427387903                               # 2^62 - 1: a huge limit other than npos
     for lim in (BIG, 2 ** 32, 2 ** 31 - 1):
@@ -355,6 +367,34 @@ def lev_ref(a, b, eq, cid=1, crep=1, boundary=None):
         prev = cur
     return prev[len(b)]
 
+def huge_ref(n, h, t, m, d, padlen):
+    """direct definitions on the virtual string  h + zeros + t  of n bytes (n far larger than every other argument)"""
+    at = lambda i: h[i] if i < len(h) else (t[i - (n - len(t))] if i >= n - len(t) else 0)
+    lo = lambda c: c + 32 if 65 <= c <= 90 else c
+    pre = bytes(at(i) for i in range(len(m))); suf = bytes(at(n - len(m) + i) for i in range(len(m)))
+    sw, swi, ew, ewi = pre == m, pre.lower() == m.lower(), suf == m, suf.lower() == m.lower()
+    def cmp3(x_at, xn, y_at, yn):                      # sign of strcmp on lower-cased bytes; stops at the first difference
+        i = 0
+        while i < xn and i < yn:
+            a, b = lo(x_at(i)), lo(y_at(i))
+            if a != b: return -1 if a < b else 1
+            i += 1
+            assert i < 64, "comparison would scan the view"
+        return (xn > yn) - (xn < yn)
+    m_at = lambda i: m[i]
+    c1 = cmp3(at, n, m_at, len(m)); c2 = -c1
+    c3 = cmp3(at, n, lambda i: at(i + 1), n - 1); c4 = -c3
+    b = lambda x: "1" if x else "0"
+    inset = lambda c: bytes([c]) in [d[i:i + 1] for i in range(len(d))]
+    rl = 0
+    while inset(at(rl)): rl += 1
+    rr = 0
+    while inset(at(n - 1 - rr)): rr += 1
+    padded = bytes(at(i) for i in range(padlen))
+    return ("sw=%s swi=%s ew=%s ewi=%s rsw=0 rswi=0 rew=0 rewi=0 cmp=%d eq=0 lt=%s rcmp=%d req=0 rlt=%s scmp=%d,%d seq=0 slt=%s,%s tl=%d:%d tr=0:%d t=%d:%d pad=%s"
+            % (b(sw), b(swi), b(ew), b(ewi), c1, b(c1 < 0), c2, b(c2 < 0), c3, c4, b(c3 < 0), b(c4 < 0),
+               rl, n - rl, n - rr, rl, n - rl - rr, hx(padded)))
+
 B64_ALPHA = b"ABCDEFGHIJKLMNOPQRSTUVWXYZabcdefghijklmnopqrstuvwxyz0123456789+/"
 def b64decode_ref(s, strict):
     """documented behaviour of base64_decode on ANY input: whitespace (and the padding '=') is skipped, any other
@@ -417,6 +457,12 @@ def oracle(case, impl, extra=None):
         if lb == 0 and b"\n" in enc: return "line break although line_break = 0"
         if f["decs"] == "EXC" or unhx(f["decs"]) != s or f["decn"] == "EXC" or unhx(f["decn"]) != s:
             if lb % 4 == 0: return "base64_decode(base64_encode(s, lb)) != s"
+    elif op == "huge":
+        if impl.strip() == "unavailable": return None           # the 4 GiB sparse mapping could not be created on this machine (counted)
+        n = int(t[1]); h, tl_, m, d, pl = unhx(t[2]), unhx(t[3]), unhx(t[4]), unhx(t[5]), int(t[6])
+        ref = huge_ref(n, h, tl_, m, d, pl)
+        got = impl.split(" !")[0].strip()
+        if got != ref: return "helper on a view of %d bytes differs from the direct definition on (head, tail, size): expected %s" % (n, ref)
     elif op == "b64d":
         ref = b64decode_ref(unhx(t[1]), t[2] == "1")
         if f["out"] != ("EXC" if ref is None else hx(ref)): return "base64_decode on arbitrary input differs from its documentation (whitespace and '=' skipped; other invalid characters throw when strict, are skipped otherwise)"
@@ -515,6 +561,7 @@ def clean_parts(parts, sep):
 def nontrivial(case, impl):
     """non-trivial = the case exercises a branch beyond the empty/identity path (rule stated in the evidence)"""
     t = case.split(); op = t[0]
+    if op == "huge": return impl != "unavailable"
     if op in ("b64", "hex"): return t[1] != "-"
     if op in ("b64d", "phex", "sq"): return t[-1 if op != "b64d" else 1] != "-"
     if op.startswith("spl"): return not impl.startswith("1:") and not impl.startswith("0:")
@@ -653,7 +700,7 @@ if impl is not None:
                 ck.violation("Coq rfc4648_base64 differs from Python base64.b64encode", {"case": c, "model": mfull, "correspondence": "Coq RFC 4648 reference vs Python base64"}, no_input=True); break
             if op == "hex" and (unhx(ef["rfcuc"]) != binascii.hexlify(unhx(c.split()[1])).upper() or unhx(ef["rfclc"]) != binascii.hexlify(unhx(c.split()[1]))):
                 ck.violation("Coq rfc4648_base16 differs from Python binascii.hexlify", {"case": c, "model": mfull, "correspondence": "Coq RFC 4648 reference vs Python binascii"}, no_input=True); break
-            if op in ("joinc", "joins") and ef.get("clean") != ("1" if clean_parts([unhx(x) for x in c.split()[3:3 + int(c.split()[2])]], unhx(c.split()[1])) or (op == "joinc" and False) else "0") and int(c.split()[2]) > 0:
+            if op in ("joinc", "joins") and c.split()[1] != "-" and ef.get("clean") != ("1" if clean_parts([unhx(x) for x in c.split()[3:3 + int(c.split()[2])]], unhx(c.split()[1])) or (op == "joinc" and False) else "0") and int(c.split()[2]) > 0:
                 ck.violation("Coq cleanb (round-trip hypothesis) differs from the oracle's reading of it", {"case": c, "model": mfull, "correspondence": "Coq cleanb vs Python clean_parts"}, no_input=True); break
             if a != b:
                 # the property does not decide this case (else the oracle had spoken): correspondence broken
@@ -676,6 +723,7 @@ ck.finish({
     "samples": samples,
     "input_distribution": stats,
     "aliasing_modes": "every two- and three-argument function is additionally called with its arguments laid out as views of ONE exactly-sized heap buffer (adjacent / shared-first = same start or contained / shared-last = same end / overlap / the same range twice), C-string overloads with both strings ending at the same NUL (equal strings: the same pointer twice), join with the glue being (a view into) an element of the joined vector, results assigned back to the viewed string (s = trim(s), s = replace_all(s, ..), s = erase_all(s, ..)), and the in-place functions replace_first / trim_left / trim_right with their read-only arguments viewing *str; any difference from the independently allocated call is a violation (!ALIAS)",
+    "huge_sizes": "case kind `huge`: views of 2^31-1, 2^31, 2^31+1, 2^32-1, 2^32, 2^32+1 bytes over one sparse MAP_NORESERVE mapping of zero bytes with a written head and tail; starts_with / ends_with (+ _icase, both argument orders, string_view and const char* match), compare_icase / equal_icase / less_icase (against a short string in both orders and against the view shifted by one byte; const char* forms for the short side), trim / trim_left / trim_right (copying, string_view*, char and default-set forms; positions and sizes of the resulting views) and pad (truncation to a short width). Judged by a direct Python definition on (head, tail, size). Model side = spec-level case kind: the extracted functions take byte lists, so the driver evaluates them on the two end windows (head + zeros, zeros + tail, longer than every other argument) and adds the sizes back; that the whole string gives the same answer follows from the prefix/suffix characterisations (C19_starts_ends_contains) and from the one-ended recursion of compare/equal/less_icase, trim_left/right and pad - stated, not separately proved. Not run on huge views: contains, split, replace, erase_all, to_lower/upper, levenshtein, hexdump, base64, join (they scan or allocate the whole view) and the const char* forms of the long argument (a C string of that length needs 4 GiB of non-zero bytes). huge cases unavailable (mmap failed): %d" % sum(1 for i, c in enumerate(cases) if c.startswith("huge") and impl is not None and i < len(impl) and impl[i].strip() == "unavailable"),
     "inplace_alias_observations": alias_obs,
     "documentation_gap_observations": doc_obs,     # calls outside what the property text covers (docs/audit/C19.md): run, counted, witnessed, not judged
     "api_surface": API_SURFACE,
